@@ -18,6 +18,8 @@ func parse_regexp(tokens []*Token, token_index int) (AstExpression, int, error) 
 	regexp_token := tokens[token_index]
 	regexp := regexp_token.Lexeme
 
+	// groups are numbered within one regular expression
+	capture_group_number = 0
 	results, _, err := parse_regexp_disjunction(regexp_token, regexp, 0)
 	if err != nil {
 		return nil, token_index, err
